@@ -6,6 +6,7 @@ S = core.tla_set
 
 
 def run(ctx):
+    ctx.kats(["KAT_SM3"], seed_const=("GF2Agree", "BigNatAgree"))
     out_h = os.path.join(ctx.scratch, "c01hash.ndjson")
     out_k = os.path.join(ctx.scratch, "c01kdf.ndjson")
     if ctx.tier == "quick":
@@ -17,7 +18,8 @@ def run(ctx):
     else:
         hjobs = [("h4", dict(WriteLens=S([0, 1, 55, 56, 63, 64, 65, 128, 191]), WriteLens2=S([1, 64]),
                              OneShotLens=S(list(range(0, 130)) + [255, 256, 257, 1023, 1024, 1025]), MaxOps=4)),
-                 ("h3all", dict(WriteLens=S(range(0, 130)), WriteLens2=S([1, 63]), OneShotLens=S([]), MaxOps=3))]
+                 ("h3mid", dict(WriteLens=S([0, 1, 8, 55, 56, 57, 63, 64, 65, 72, 119, 120, 127, 128, 129, 191, 192]), WriteLens2=S([1, 63]), OneShotLens=S([]), MaxOps=3)),
+                 ("h2all", dict(WriteLens=S(range(0, 201)), WriteLens2=S([1, 63]), OneShotLens=S([]), MaxOps=2))]
         zl = list(range(0, 201))
         kl = sorted(set(sum([[32 * k - 1, 32 * k, 32 * k + 1] for k in range(1, 18)], [])))
         zshards = 8
